@@ -227,6 +227,10 @@ func findNew(pkgs []*packages.Package, inv map[string]bool) []*newFunc {
 	return out
 }
 
+// InlinedAway lists the keys of new functions all of whose calls were inlined by the last Normalize: their bodies are
+// analysed as part of their callers, and rules that range over every function skip them.
+var InlinedAway = map[string]bool{}
+
 // Normalize returns the directory to analyse: dir itself when it has no new functions, otherwise a scratch copy
 // in which calls to new functions have been inlined. notes describes what was done; cleanup removes the copy.
 func Normalize(dir, inventoryPath string) (out string, notes []string, cleanup func(), err error) {
@@ -442,6 +446,17 @@ func Normalize(dir, inventoryPath string) (out string, notes []string, cleanup f
 	for k, n := range inlined {
 		if n <= 0 {
 			delete(inlined, k)
+		}
+	}
+	for k := range inlined {
+		kept := false
+		for site := range gaveUp {
+			if strings.Contains(site, ">"+k+"#") {
+				kept = true
+			}
+		}
+		if !kept && !strings.Contains(k, "$") {
+			InlinedAway[k] = true
 		}
 	}
 	var keys []string
